@@ -737,6 +737,7 @@ X4_KNOWN_HELPERS = {
     "_parse_extras_list", "_parse_extras", "_parse_requirement_marker", "_parse_requirement_details", "_parse_requirement",
     "_parse_keywords", "_parse_project_urls", "_parse_local_version", "_parse_project_urls", "_get_payload",
     "Specifier._get_operator",          # evaluated at translation time (PARTIAL_EVAL_GUARDS)
+    "ELFFile._read",                    # x6: a run-time primitive of its own (`struct.unpack` on the file)
 }
 
 
